@@ -6,6 +6,8 @@ A gate is described by a small tuple (its *descriptor*):
     ("R", kind, n, phase)    rotation; n = phase*8 (int) in exact mode, None for a float phase
     ("K", bits) / ("B", bits)  Ket / Bra                      ("S", cyc8_tuple | None, value)  scalar
     ("Q", name)              user-defined QuantumGate(name, n_qubits, array) from the CUSTOM table below
+    ("Z", z_tuple | None, root_tuple | None, data)   the square-root scalar sqrt(data) (gates.Sqrt); in exact
+                             mode data = root², both given as cyc8 tuples, root = the principal root
 `build` makes the discopy object the way a user would, `tok` the driver tokens (exact mode only),
 `std_io` the INDEPENDENT textbook matrix of the map in discopy's [input, output] order (transpose of
 the usual U[out][in]); nothing in `std_io` calls discopy.
@@ -118,6 +120,8 @@ def std_io(g):
         return basis(g[1]).reshape(-1, 1)
     if k == "S":
         return np.array([[g[2]]], dtype=complex)
+    if k == "Z":
+        return np.array([[cmath.sqrt(complex(g[3]))]], dtype=complex)     # the principal root
     if k == "Q":
         return CUSTOM[g[1]].copy()
     raise KeyError(k)
@@ -166,6 +170,8 @@ def build(g):
         return gates.Bra(*g[1])
     if k == "S":
         return gates.scalar(g[2])
+    if k == "Z":
+        return gates.sqrt(g[3])
     if k == "Q":
         return gates.QuantumGate(g[1], CUSTOM_NQ[g[1]], CUSTOM[g[1]].reshape(-1))
     raise KeyError(k)
@@ -188,6 +194,9 @@ def tok(g):
     if k == "S":
         assert g[1] is not None
         return "S " + cyc8.scalar_tok(g[1])
+    if k == "Z":
+        assert g[1] is not None and g[2] is not None
+        return "Z %s %s" % (cyc8.scalar_tok(g[1]), cyc8.scalar_tok(g[2]))
     if k == "Q":
         flat = CUSTOM[g[1]].reshape(-1)
         ents = [cyc8.recognise(z) for z in flat]
@@ -215,7 +224,15 @@ def show(g):
         return "Bra(%s)" % ", ".join(str(int(b)) for b in g[1])
     if k == "Q":
         return "QuantumGate(%r, %d, CUSTOM[%r])" % (g[1], CUSTOM_NQ[g[1]], g[1])
+    if k == "Z":
+        return "sqrt(%s)" % numtypes.show(g[3])
     return "scalar(%s)" % numtypes.show(g[2])
+
+
+def show_number(x):
+    """repr with the Python type made visible (int / float / complex / numpy scalar behave differently
+    under `** .5` and `.conjugate()`)."""
+    return numtypes.show(x)
 
 
 def kinds(g):
@@ -233,7 +250,7 @@ def kinds(g):
         return [g[1]]
     if k == "Q":
         return ["QuantumGate%d" % CUSTOM_NQ[g[1]]]
-    return [{"K": "Ket", "B": "Bra", "S": "scalar"}[k]]
+    return [{"K": "Ket", "B": "Bra", "S": "scalar", "Z": "sqrt"}[k]]
 
 
 EXACT_SCALARS = [(1, 0, 0, 0, 0), (-1, 0, 0, 0, 0), (0, 0, 1, 0, 0), (0, 1, 0, 0, 0),
@@ -241,14 +258,102 @@ EXACT_SCALARS = [(1, 0, 0, 0, 0), (-1, 0, 0, 0, 0), (0, 0, 1, 0, 0), (0, 1, 0, 0
                  (1, 0, 0, 0, 1), (3, 0, -2, 0, 0), (0, 1, 0, -1, 0)]
 
 
+# more exact scalar data for the single-box stream (zero, negative and non-real dyadics)
+EXACT_SCALARS_EXTRA = [(0, 0, 0, 0, 0), (-3, 0, 0, 0, 0), (-1, 0, 0, 0, 1), (0, 0, -1, 0, 0), (-2, 0, -3, 0, 0),
+                       (1, 0, -1, 0, 2), (0, -1, 0, 1, 0), (0, -1, 0, 0, 0), (-4, 0, 0, 0, 0), (0, 0, 2, 0, 0)]
+
+# Roots w ∈ ℤ[ζ₈]/2^e for exact square-root scalars: the box is sqrt(w²), w² computed exactly, and the value
+# the model is given is the PRINCIPAL root ±w.  Covers data that are positive, NEGATIVE real (w on the
+# imaginary axis), purely imaginary, general Gaussian, irrational (ζ, √2) and zero.
+EXACT_ROOTS = [
+    (0, 1, 0, -1, 0),     # √2        -> sqrt(2)           (the one the library itself uses: cups, caps)
+    (0, 1, 0, -1, 1),     # 1/√2      -> sqrt(0.5)
+    (1, 0, 0, 0, 0),      # 1         -> sqrt(1)
+    (3, 0, 0, 0, 0),      # 3         -> sqrt(9)
+    (3, 0, 0, 0, 1),      # 3/2       -> sqrt(2.25)
+    (0, 0, 0, 0, 0),      # 0         -> sqrt(0)
+    (0, 0, 1, 0, 0),      # i         -> sqrt(-1)          negative real data
+    (0, 0, 2, 0, 0),      # 2i        -> sqrt(-4)
+    (0, 0, 1, 0, 1),      # i/2       -> sqrt(-0.25)
+    (0, 1, 0, 1, 0),      # i√2       -> sqrt(-2)
+    (1, 0, 1, 0, 0),      # 1+i       -> sqrt(2i)          purely imaginary data
+    (1, 0, -1, 0, 0),     # 1-i       -> sqrt(-2i)
+    (0, 1, 0, 0, 0),      # ζ         -> sqrt(i)
+    (0, 0, 0, -1, 0),     # -ζ³=conj ζ -> sqrt(-i)
+    (1, 0, 2, 0, 0),      # 1+2i      -> sqrt(-3+4i)       general Gaussian data, every quadrant
+    (2, 0, -1, 0, 0),     # 2-i       -> sqrt(3-4i)
+    (1, 0, -2, 0, 0),     # 1-2i      -> sqrt(-3-4i)
+    (2, 0, 1, 0, 0),      # 2+i       -> sqrt(3+4i)
+    (3, 0, 2, 0, 1),      # (3+2i)/2  -> sqrt((5+12i)/4)
+    (1, 0, -3, 0, 2),     # (1-3i)/4  -> sqrt((-8-6i)/16)
+    (1, 1, 0, 0, 0),      # 1+ζ       -> irrational non-real data
+    (1, 1, 0, -1, 0),     # 1+√2      -> sqrt(3+2√2)       irrational positive
+    (0, 1, 2, 1, 0),      # i(2+√2)   -> irrational negative real data
+]
+
+
+def principal(w):
+    """±w with the sign of the principal square root: Re > 0, or Re = 0 and Im >= 0."""
+    z = cyc8.to_complex(w)
+    if z.real < -1e-12 or (abs(z.real) <= 1e-12 and z.imag < 0):
+        return cyc8.neg(w)
+    return w
+
+
+def number_of(t, as_type="auto"):
+    """The Python number a user would type for the exact value `t`: int / float for a real value (so that
+    `data.conjugate() == data` holds exactly as it does for typed-in reals), complex otherwise.
+    `as_type`: "auto" | "complex" | "np.complex128" | "np.float64" (real, non-negative values only)."""
+    a, b, c, d, e = t
+    s = 2.0 ** e
+    if b == 0 and d == 0:                       # Gaussian dyadic: exactly representable
+        val = complex(a / s, c / s) if c else (a if e == 0 else a / s)
+    elif cyc8.is_real(t):                       # a + b√2
+        val = (a + b * math.sqrt(2.0)) / s
+    else:
+        val = complex(cyc8.to_complex(t))
+    if as_type == "complex":
+        return complex(val)
+    if as_type == "float":
+        return float(val)
+    if as_type == "np.complex128":
+        return np.complex128(val)
+    if as_type == "np.float64":
+        return np.float64(val)
+    return val
+
+
+def sqrt_exact(w, as_type="auto"):
+    """Descriptor of sqrt(w²) with the exact data and its principal root."""
+    zt = cyc8.mul(w, w)
+    return ("Z", zt, principal(w), number_of(zt, as_type))
+
+
+def is_negative_real(x):
+    """Data on which finding F4k shows: conjugation-invariant (so the box is taken for self-adjoint) with
+    a non-real square root."""
+    try:
+        return bool(x.conjugate() == x) and complex(x).real < 0
+    except Exception:
+        return False
+
+
+def has_f4k(g):
+    k = g[0]
+    if k in "DC":
+        return has_f4k(g[1])
+    return k == "Z" and is_negative_real(g[3])
+
+
 class QGen:
     """Random pure circuits: 0-4 wires, depth <= 8, gates at random offsets, kets/bras with
     random bitstrings.  `exact=True`: phases n/8 (even n for all kinds but CU1) and scalars in
     ℤ[ζ₈]/2^e, so that the model evaluates the same circuit exactly."""
 
-    def __init__(self, rng, exact, gateset=None, max_wires=4):
+    def __init__(self, rng, exact, gateset=None, max_wires=4, roots=False):
         self.rng, self.exact, self.max_wires = rng, exact, max_wires
         self.gateset = gateset
+        self.roots = roots      # also square-root scalars sqrt(z) among the scalar boxes (C11)
 
     def phase(self, kind):
         if self.exact:
@@ -263,7 +368,35 @@ class QGen:
         n, ph = self.phase(kind)
         return ("R", kind, n, ph)
 
+    def sqrt_box(self):
+        """sqrt(z): exact mode z = w² for a root of the table (any Python type of the data); float mode a
+        random complex z (every quadrant), a negative or positive real, or a point next to the branch cut."""
+        rng = self.rng
+        if self.exact:
+            w = rng.choice(EXACT_ROOTS)
+            zt = cyc8.mul(w, w)
+            types = ["auto", "auto", "complex", "np.complex128"]
+            if cyc8.is_real(zt) and cyc8.to_complex(zt).real >= 0:
+                types += ["float", "np.float64"]
+            return sqrt_exact(w, rng.choice(types))
+        r = rng.random()
+        if r < 0.6:
+            z = complex(round(rng.uniform(-3, 3), 3), round(rng.uniform(-3, 3), 3))
+        elif r < 0.7:
+            z = -round(rng.uniform(0.01, 4), 3)                      # negative real (F4k)
+        elif r < 0.8:
+            z = round(rng.uniform(0.01, 4), 3)
+        elif r < 0.9:
+            z = complex(-round(rng.uniform(0.01, 4), 3), rng.choice((1e-3, -1e-3, 1e-6, -1e-6)))
+        else:
+            z = complex(0.0, round(rng.uniform(-3, 3), 3))
+        if isinstance(z, complex) and z.imag == 0:
+            z = complex(z.real, 0.5)
+        return ("Z", None, None, z)
+
     def scalar(self):
+        if self.roots and self.rng.random() < 0.5:
+            return self.sqrt_box()
         if self.exact:
             t = self.rng.choice(EXACT_SCALARS)
             return ("S", t, cyc8.to_complex(t))
@@ -350,7 +483,7 @@ class QGen:
         layers = []
         while len(layers) < depth:
             g = self.pick(w)
-            while unitary and g[0] in "KBS":
+            while unitary and g[0] in "KBSZ":
                 g = self.pick(w)
             d, c = arity(g)
             off = self.rng.randint(0, w - d)
@@ -404,7 +537,11 @@ def close(a, b, tol=1e-9):
 SELF_ADJOINT = ("H", "X", "Z", "CZ")
 
 
-def _dag(y):
+def _conj_tuple(t):
+    return None if t is None else cyc8.conj(t)
+
+
+def _dag(y, f4k=True):
     k = y[0]
     if k == "N":
         if y[1] in SELF_ADJOINT or y[1] == "CX":
@@ -413,7 +550,7 @@ def _dag(y):
     if k == "D":
         return y[1]
     if k == "C":
-        return ("C", _dag(y[1]))
+        return ("C", _dag(y[1], f4k))
     if k == "R":
         return ("R", y[1], None if y[2] is None else -y[2], -y[3])
     if k == "K":
@@ -424,25 +561,33 @@ def _dag(y):
         return y
     if k == "Q":
         return ("D", y)
+    if k == "Z":
+        # gates.py:556-558: `self` if the DATA is conjugation-invariant, else Scalar(conj(data ** .5)).
+        # `f4k=True`: as the code is (a negative real is its own dagger, finding F4k); False: the adjoint.
+        root = cmath.sqrt(complex(y[3]))
+        if root.conjugate() == root or (f4k and is_negative_real(y[3])):
+            return y
+        return ("S", _conj_tuple(y[2]), root.conjugate())
     t = y[1]
     return ("S", None if t is None else (t[0], -t[3], -t[2], -t[1], t[4]), y[2].conjugate())
 
 
-def norm(g):
-    """Push `.dagger()` through discopy's dagger mechanisms (gates.py:43, 225, 253, 286, 361, 529):
+def norm(g, f4k=True):
+    """Push `.dagger()` through discopy's dagger mechanisms (gates.py:43, 225, 253, 286, 361, 556):
     afterwards a "D" only wraps a flagged table gate S, T or Y or a user-defined QuantumGate."""
     k = g[0]
     if k == "D":
-        return _dag(norm(g[1]))
+        return _dag(norm(g[1], f4k), f4k)
     if k == "C":
-        return ("C", norm(g[1]))
+        return ("C", norm(g[1], f4k))
     return g
 
 
-def masked_io(g, f17=False, f2=False):
+def masked_io(g, f17=False, f2=False, f4k=False):
     """The matrix the descriptor has if finding F17 (Y, Ry stored transposed) and/or F2
-    (Controlled reads the target's array and ignores its dagger flag) are in effect."""
-    return _masked(norm(g), f17, f2)
+    (Controlled reads the target's array and ignores its dagger flag) and/or F4k (sqrt of a negative real
+    is its own dagger) are in effect."""
+    return _masked(norm(g, f4k), f17, f2)
 
 
 def _masked(g, f17, f2):
